@@ -17,7 +17,7 @@ func TestC03(t *testing.T) {
 		core.OpAdd: 4, core.OpRemove: 3, core.OpExchange: 3, core.OpRelExchange: 3, core.OpRelSet: 6,
 		core.OpBatchAdd: 3, core.OpBatchRemove: 2, core.OpBatchExch: 2, core.OpBatchSetRel: 3, core.OpRelExchB: 2,
 		core.OpSet:   2,
-		core.OpQuery: 30, core.OpRegister: 6, core.OpUnregister: 1, "useRegistered": 40,
+		core.OpQuery: 30, core.OpRegister: 6, core.OpUnregister: 1, "useRegistered": 40, core.OpReset: 1,
 	}
 	runSimProp(t, &simProp{
 		ID: "C03",
